@@ -347,6 +347,7 @@ def registry_fold(prog, tests, flags=(0, 0), during=None):
                 e2 = Evaluator(prog, ms[0], env=env2, calls=dict(build_hooks))
                 e2.objects = True
                 e2.pass_object = True
+                e2.inline = {g.qn for g in prog.functions.values() if g.qn.startswith("TestRegistry::")} - set(build_hooks) - {ms[0].qn}
                 e2.run_blocks(ms[0].entry, max_steps=2000)
                 for k, v in e2.env.items():
                     if rootk(k) in fields and ev_.env.get(k) != v:
@@ -372,8 +373,24 @@ def registry_fold(prog, tests, flags=(0, 0), during=None):
     steps = [("addTest", [a_]) for a_ in reversed(addr)] + [("setGroupFilters", [81]), ("setNameFilters", [82]), ("installPlugin", [70])]
     steps += [("setRunTestsInSeperateProcess", [])] if flags[0] else []
     steps += [("setRunIgnored", [])] if flags[1] else []
-    build_hooks = string_hooks({"UtestShell::addTest": lambda o, nxt, *a_: o, "TestPlugin::addPlugin": lambda o, *a_: o, "NullTestPlugin::instance": lambda *a_: 9000})
-    env = object_state(prog, "TestRegistry", [], [], steps=steps, hooks=build_hooks)
+    # (plugins: a chain model kept beside the fold - who follows whom, and every plugin's name - answers lookups by name; installing a
+    # second plugin OBJECT under a name that is already in the chain is an installation like any other)
+    next_of = {}
+
+    def add_plugin(o, nxt=None, *a_):
+        next_of[o] = nxt
+        return o
+
+    def plugin_by_name(o, name=None, *a_):
+        cur_, n_ = o, 0
+        while isinstance(cur_, int) and cur_ in next_of and n_ < 20:
+            if ("str", "plugin") == name:
+                return cur_
+            cur_, n_ = next_of.get(cur_), n_ + 1
+        return 0
+    build_hooks = string_hooks({"UtestShell::addTest": lambda o, nxt, *a_: o, "TestPlugin::addPlugin": add_plugin, "NullTestPlugin::instance": lambda *a_: 9000,
+                                "TestPlugin::getName": lambda *a_: ("str", "plugin"), "TestPlugin::getPluginByName": plugin_by_name})
+    env = object_state(prog, "TestRegistry", [], [], steps=steps, hooks=build_hooks, inline={g.qn for g in prog.functions.values() if g.qn.startswith("TestRegistry::")} - set(build_hooks))
     rep0 = None
     gr = prog.fn("TestRegistry::getCurrentRepetition")
     e0 = Evaluator(prog, gr, env=dict(env))
